@@ -680,7 +680,7 @@ def _worker_deep(w, W, payload):
     rec = _Rec(agg)
     heads = payload["heads"]
     for i, case in enumerate(_DEEP):
-        if i % W != w:
+        if (i + i // W) % W != w:  # rotated shards: the product's inner loops have period 16, plain i % W would pin one (inner, prefix) per worker
             continue
         desc = deep_desc(case)
         levels = case[4] * sum(case[1].count(c) for c in "[{")
